@@ -223,7 +223,7 @@ class PowHsm(Device):
                 self.fail(E_DATA_SIZE)
             if path not in AUTH_PATHS + NOAUTH_PATHS:
                 self.fail(E_DATA_SIZE)     # do_pubkey: invalid path -> ERR_INVALID_PATH
-            return pseudo_pubkey(self.seed, path)
+            return getattr(self, "pubkey_override", None) or pseudo_pubkey(self.seed, path)
         if cmd == 0x02:
             return self.do_sign(apdu)
         if cmd == 0x20:
